@@ -612,16 +612,13 @@ theorem toks_safe : (t : Stan) → namesValid t = true → ∀ tok ∈ toks t, t
   | .cdata s, _ => by simp [toks, tokSafe]
   | .charref n, _ => by simp [toks, tokSafe]
   | .tag name attrs children, h => by
-    simp only [namesValid, Bool.and_eq_true, Bool.or_eq_true] at h
-    obtain ⟨⟨hname, hattrs⟩, hch⟩ := h
-    have ihc := toksList_safe children hch
-    have iha := attrToks_safe attrs hattrs
     by_cases hn : name.isEmpty = true
-    · simpa [toks, hn] using ihc
-    · have hv : validName name = true := by
-        rcases hname with h | h
-        · exact absurd h hn
-        · exact h
+    · simp only [namesValid, hn, if_true] at h
+      simpa [toks, hn] using toksList_safe children h
+    · simp only [namesValid, hn, Bool.false_eq_true, if_false, Bool.and_eq_true] at h
+      obtain ⟨⟨hv, hattrs⟩, hch⟩ := h
+      have ihc := toksList_safe children hch
+      have iha := attrToks_safe attrs hattrs
       intro tok htok
       by_cases hvoid : writesEndTag name children = true
       · simp [toks, hn, hvoid] at htok
@@ -1292,8 +1289,9 @@ end
 
 /-- **C10 / math_filter_safe.** Whatever docutils' math2html produced for a formula (`html`, with
 its parse `parsed`), what `visit_math` puts on the page is either that HTML — and then every element
-of it is one of math2html's seventeen, carries only `class`/`style`/`href`/`name`, and no `href` is
-a `javascript:`/`data:`/`vbscript:` URL — or the start tag of `<tt>`/`<pre>`, the LaTeX source
+of it is one of math2html's seventeen, carries only `class`/`style`/`href`/`name`, no `href` starts
+with `javascript:`/`data:`/`vbscript:` (a string-prefix test, not a URL filter), and it holds no comment
+or CDATA section (`math_kept_html_escaped`) — or the start tag of `<tt>`/`<pre>`, the LaTeX source
 `encode`d (no `<`, `>`, `"`, every `&` an emitted entity), and the end tag. -/
 theorem math_filter_safe (html : List Char) (parsed : Option Stan) (src : List Char) (isBlock : Bool) :
     (visitMath html parsed src isBlock = html ∧ ∃ t, parsed = some t ∧ ∀ e ∈ elementsOf t,
@@ -1310,19 +1308,100 @@ theorem math_filter_safe (html : List Char) (parsed : Option Stan) (src : List C
     · exact Or.inl ⟨by simp [h], t, rfl, isMathHtml_elements t h⟩
     · exact Or.inr ⟨if isBlock then ['p', 'r', 'e'] else ['t', 't'], by simp [h], encode_safe src⟩
 
-/-- what `math_filter_safe` does NOT give (open finding `marker-markup-unescaped:math-cdata` /
-`:math-comment`): the walk looks at elements only, so a CDATA section or a comment inside math2html's
-HTML is accepted — and the flattener writes both verbatim, `<`, `>`, `"` of the formula's text
-unescaped (for an HTML reader `<![CDATA[>` and `<!-->` end at once and what follows is live markup).
-Full statement wanted: "kept HTML ⇒ every character of the formula's text is escaped"; it needs
-`isMathHtml` to refuse children that are neither text nor element. -/
+/-- history (9d87f54 … 00f0a02~1, finding `marker-markup-unescaped:math-cdata` / `:math-comment`, fixed by
+00f0a02): the walk looked at elements only, so a CDATA section or a comment inside math2html's HTML was
+accepted — and the flattener writes both verbatim, `<`, `>`, `"` of the formula's text unescaped (for an
+HTML reader `<![CDATA[>` and `<!-->` end at once and what follows is live markup). The walk as it is
+refuses both (last two conjuncts). -/
 theorem math_filter_cdata_counterexample :
-    isMathHtml (.tag [] [] [.tag ['s', 'p', 'a', 'n'] [] [.cdata ['>', '<', 'i', 'm', 'g', '/', '>']]]) = true ∧
-    isMathHtml (.tag [] [] [.tag ['s', 'p', 'a', 'n'] [] [.comment ['>', '<', 'i', 'm', 'g', '/', '>']]]) = true ∧
+    isMathHtmlOld (.tag [] [] [.tag ['s', 'p', 'a', 'n'] [] [.cdata ['>', '<', 'i', 'm', 'g', '/', '>']]]) = true ∧
+    isMathHtmlOld (.tag [] [] [.tag ['s', 'p', 'a', 'n'] [] [.comment ['>', '<', 'i', 'm', 'g', '/', '>']]]) = true ∧
     (toks (.cdata ['>', '<', 'i', 'm', 'g', '/', '>'])) = [.cdata ['>', '<', 'i', 'm', 'g', '/', '>']] ∧
     renderTok (.comment ['>', '<', 'i', 'm', 'g', '/', '>']) =
-      ['<', '!', '-', '-', '>', '<', 'i', 'm', 'g', '/', '>', '-', '-', '>'] := by
+      ['<', '!', '-', '-', '>', '<', 'i', 'm', 'g', '/', '>', '-', '-', '>'] ∧
+    isMathHtml (.tag [] [] [.tag ['s', 'p', 'a', 'n'] [] [.cdata ['>', '<', 'i', 'm', 'g', '/', '>']]]) = false ∧
+    isMathHtml (.tag [] [] [.tag ['s', 'p', 'a', 'n'] [] [.comment ['>', '<', 'i', 'm', 'g', '/', '>']]]) = false := by
   decide
+
+theorem mathTags_valid : ∀ n ∈ mathTags, validName n = true := by decide
+theorem mathAttrs_valid : ∀ n ∈ mathAttrs, validName n = true := by decide
+
+/-- a token the flattener writes without escaping its data -/
+def rawTok : Tok → Bool
+  | .comment _ => true
+  | .cdata _ => true
+  | _ => false
+
+theorem attrToks_notRaw (attrs : List (List Char × List Char)) : ∀ tok ∈ attrToks attrs, rawTok tok = false := by
+  induction attrs with
+  | nil => simp [attrToks]
+  | cons kv r ih =>
+    obtain ⟨k, v⟩ := kv
+    intro tok ht
+    simp only [attrToks, List.mem_cons] at ht
+    rcases ht with ht | ht
+    · subst ht; rfl
+    · exact ih tok ht
+
+mutual
+theorem isMathHtml_clean : (t : Stan) → isMathHtml t = true →
+    namesValid t = true ∧ ∀ tok ∈ toks t, rawTok tok = false
+  | .text _, _ => by simp [namesValid, toks, rawTok]
+  | .charref _, _ => by simp [namesValid, toks, rawTok]
+  | .comment _, h => by simp [isMathHtml] at h
+  | .cdata _, h => by simp [isMathHtml] at h
+  | .tag name attrs children, h => by
+    by_cases hn : name.isEmpty = true
+    · simp only [isMathHtml, hn, if_true] at h
+      have ih := isMathHtmlList_clean children h
+      refine ⟨by simp [namesValid, hn, ih.1], ?_⟩
+      simpa [toks, hn] using ih.2
+    · simp only [isMathHtml, hn, Bool.false_eq_true, if_false, Bool.and_eq_true, Bool.not_eq_true'] at h
+      obtain ⟨⟨⟨h1, h2⟩, _⟩, h4⟩ := h
+      have ih := isMathHtmlList_clean children h4
+      have hv : validName name = true := mathTags_valid name (by simpa using h1)
+      have ha : attrs.all (fun kv => validName kv.1) = true := by
+        rw [List.all_eq_true] at h2 ⊢
+        intro kv hkv
+        exact mathAttrs_valid kv.1 (by simpa using h2 kv hkv)
+      refine ⟨by simp [namesValid, hv, ha, ih.1], ?_⟩
+      intro tok htok
+      have hattr : ∀ tok ∈ attrToks attrs, rawTok tok = false := attrToks_notRaw attrs
+      by_cases hw : writesEndTag name children = true
+      · simp [toks, hn, hw] at htok
+        rcases htok with e | e | e | e | e
+        · subst e; rfl
+        · exact hattr tok e
+        · subst e; rfl
+        · exact ih.2 tok e
+        · subst e; rfl
+      · simp [toks, hn, hw] at htok
+        rcases htok with e | e | e
+        · subst e; rfl
+        · exact hattr tok e
+        · subst e; rfl
+theorem isMathHtmlList_clean : (ts : List Stan) → isMathHtmlList ts = true →
+    namesValidList ts = true ∧ ∀ tok ∈ toksList ts, rawTok tok = false
+  | [], _ => by simp [namesValidList, toksList]
+  | t :: ts, h => by
+    simp only [isMathHtmlList, Bool.and_eq_true] at h
+    have h1 := isMathHtml_clean t h.1
+    have h2 := isMathHtmlList_clean ts h.2
+    refine ⟨by simp [namesValidList, h1.1, h2.1], ?_⟩
+    intro tok htok
+    simp only [toksList, List.mem_append] at htok
+    rcases htok with e | e
+    · exact h1.2 tok e
+    · exact h2.2 tok e
+end
+
+/-- **C10 / math_kept_html_escaped.** HTML that the math filter keeps has no comment and no CDATA
+section, and when it is flattened every token is clean (`flatten_safe`): every character of the
+formula's text is written escaped — there is no place left where it is copied verbatim. -/
+theorem math_kept_html_escaped (t : Stan) (h : isMathHtml t = true) :
+    (toks t).all tokSafe = true ∧ (∀ tok ∈ toks t, rawTok tok = false) ∧ nested [] false (toks t) = true :=
+  ⟨flatten_safe t (isMathHtml_clean t h).1, (isMathHtml_clean t h).2, flatten_balanced t⟩
+
 
 /-- the payloads of the finding `source-text-became-markup:math-*` are refused by the walk: an
 element that is not math2html's, an event-handler attribute, a script URL -/
@@ -1350,6 +1429,66 @@ theorem introspected_sigOld_counterexample :
     formatSigIntrospectedOld ['\'', '<', 'b', '>', '\''] = none ∧
     formatSigIntrospected ['\'', '<', 'b', '>', '\''] =
       ['(', 'a', '=', '\'', '&', 'l', 't', ';', 'b', '&', 'g', 't', ';', '\'', ')'] := by
+  decide
+
+
+
+/-! ### `stanutils._refuse_template_directives` (8cc9d33) -/
+
+mutual
+/-- every node of a loaded tree -/
+def tnodesOf : TNode → List TNode
+  | .tag name r a children => .tag name r a children :: tnodesOfList children
+  | n => [n]
+def tnodesOfList : List TNode → List TNode
+  | [] => []
+  | t :: ts => tnodesOf t ++ tnodesOfList ts
+end
+
+/-- a node that twisted would run as a template directive when the page is written -/
+def isDirective : TNode → Bool
+  | .slot => true
+  | .tag name r a _ => r || name.isEmpty || !a
+  | _ => false
+
+mutual
+theorem directiveFree_spec : (t : TNode) → directiveFree t = true → ∀ n ∈ tnodesOf t, isDirective n = false
+  | .text, _ => by simp [tnodesOf, isDirective]
+  | .other, _ => by simp [tnodesOf, isDirective]
+  | .slot, h => by simp [directiveFree] at h
+  | .tag name r a children, h => by
+    simp only [directiveFree, Bool.and_eq_true, Bool.not_eq_true'] at h
+    obtain ⟨⟨⟨h1, h2⟩, h3⟩, h4⟩ := h
+    intro n hn
+    simp only [tnodesOf, List.mem_cons] at hn
+    rcases hn with hn | hn
+    · subst hn; simp [isDirective, h1, h2, h3]
+    · exact directiveFreeList_spec children h4 n hn
+theorem directiveFreeList_spec : (ts : List TNode) → directiveFreeList ts = true →
+    ∀ n ∈ tnodesOfList ts, isDirective n = false
+  | [], _ => by simp [tnodesOfList]
+  | t :: ts, h => by
+    simp only [directiveFreeList, Bool.and_eq_true] at h
+    intro n hn
+    simp only [tnodesOfList, List.mem_append] at hn
+    rcases hn with hn | hn
+    · exact directiveFree_spec t h.1 n hn
+    · exact directiveFreeList_spec ts h.2 n hn
+end
+
+/-- **C10 / html2stan_directive_free.** A tree that `html2stan` returns (the walk did not raise)
+contains, anywhere, no renderer, no slot, no transparent tag and no attribute that is not text:
+nothing in HTML *data* is run as a template directive when the page is written — and conversely a
+tree with such a node at its root or directly below is refused. -/
+theorem html2stan_directive_free (t : TNode) (h : directiveFree t = true) :
+    ∀ n ∈ tnodesOf t, isDirective n = false := directiveFree_spec t h
+
+theorem directive_refused :
+    directiveFree (.tag ['d', 'i', 'v'] false true [.tag ['s', 'p', 'a', 'n'] true true [.text]]) = false ∧
+    directiveFree (.tag ['d', 'i', 'v'] false true [.slot]) = false ∧
+    directiveFree (.tag ['d', 'i', 'v'] false true [.tag [] false true [.text]]) = false ∧
+    directiveFree (.tag ['d', 'i', 'v'] false true [.tag ['a'] false false []]) = false ∧
+    directiveFree (.tag ['d', 'i', 'v'] false true [.other, .tag ['b'] false true [.text]]) = true := by
   decide
 
 
